@@ -350,3 +350,24 @@ Qed.
 (* the parser never panics on what the writer prints (a corollary, stated for the record) *)
 Corollary parse_print_no_panic : forall js, table_wf js -> is_panic (parse (print_jobs js)) = false.
 Proof. intros js H. rewrite parse_print by exact H. reflexivity. Qed.
+
+(* ---- names with a newline (known finding): the round trip fails ---------------------------------------- *)
+(* stream "a\nb": the file does not load at all *)
+Definition nl_job_unloadable : job :=
+  {| jfile := [102]%N; jinode := 1%N; jsid := 1%N; jts := 0%Z; jstreams := [([97; 10; 98]%N, 7%Z)] |}.
+(* stream "x: 1\n    y": the file loads, as two other streams *)
+Definition nl_job_forged : job :=
+  {| jfile := [102]%N; jinode := 1%N; jsid := 1%N; jts := 0%Z;
+     jstreams := [([120; 58; 32; 49; 10; 32; 32; 32; 32; 121]%N, 2%Z)] |}.
+
+Lemma parse_print_newline_refuted :
+  (exists e, parse (print_jobs [nl_job_unloadable]) = Err e) /\
+  parse (print_jobs [nl_job_forged]) =
+    Ok [{| efile := [102]%N; esid := 1%N; ets := Some 0%Z; estreams := [([120]%N, 1%Z); ([121]%N, 2%Z)] |}] /\
+  parse (print_jobs [nl_job_forged]) <> Ok (expected_load [nl_job_forged]).
+Proof.
+  split; [|split].
+  - eexists. vm_compute. reflexivity.
+  - vm_compute. reflexivity.
+  - vm_compute. discriminate.
+Qed.
